@@ -60,3 +60,37 @@ Definition check_order (i : input) (o : obs) : N :=
   | Err, Err => 0
   | _, _ => 3
   end%N.
+
+(* ---------- C04: joins.  Model (code-shaped) and specification (textbook) are evaluated
+   separately, so a strategy-dependent answer shows up as "property fails" even when the model
+   mirrors the code ---------- *)
+From GenqlV Require Import Model.Join Spec.JoinSpec.
+
+Definition run_model_join (i : input) : res (list value) :=
+  let '(wrapped, doc, q) := i in
+  api_run no_call exec_join fuel wrapped doc q.
+
+Definition spec_join : jointype -> jstrategy -> list value -> list value -> string -> string ->
+                       expr stmt -> row -> res (list value) :=
+  fun jt st L R lid rid on data =>
+    (* a STRAIGHT_JOIN that is not inner is rejected by the engine; the property does not cover it *)
+    if is_straight st && negb (match jt with JInner => true | _ => false end) then Err
+    else join_spec jt L R lid rid on data.
+
+Definition run_spec_join (i : input) : res (list value) :=
+  let '(wrapped, doc, q) := i in
+  api_run no_call spec_join fuel wrapped doc q.
+
+Definition agree_multiset (m : res (list value)) (o : obs) : option bool :=
+  match m, o with
+  | OutOfModel, _ => None
+  | Ok a, Ok b => Some (perm_eqb a b)
+  | Err, Err => Some true
+  | _, _ => Some false
+  end.
+
+Definition check_join (i : input) (o : obs) : N :=
+  match agree_multiset (run_model_join i) o, agree_multiset (run_spec_join i) o with
+  | None, _ | _, None => 4
+  | Some a, Some b => code_of a b
+  end%N.
